@@ -376,7 +376,8 @@ impl Prop for C03 {
         };
         let model = RunModel::new(n, &runs);
         let mut rep = Report::new();
-        let rl = rl_by_route(n, has_tail, &runs, case, model.ones);
+        let mut rl = rl_by_route(n, has_tail, &runs, case, model.ones);
+        crate::model::enable_builtin_supports(&mut rl, case.route / 8, "RLVector")?;
         rep.class(&format!("route:{}", case.route % NUM_ROUTES));
 
         let plan = rl_plan(&model, &case.extra, 3000);
